@@ -1,6 +1,6 @@
 """Property -> what decides it (units under contract, extra obligation groups, covers, bounded native oracle)."""
 from __future__ import annotations
-from . import native_ode, native_net, rates, templates, conservation, c19
+from . import native_ode, native_net, native_renorm, rates, templates, conservation, c19, renorm
 
 ODE_UNIT = ("contracts.ode", "prepare_ode_content")
 
@@ -74,6 +74,15 @@ PROPERTIES = {
         "units": [ODE_UNIT],
         "oracle": native_ode.oracle_for("C13"),
         "trusted_base": _ode_trusted,
+    },
+    "C16": {
+        "level": "other",
+        "units": [("contracts.renorm", "prepare_renorm_content")],
+        "extra": [renorm.algebra_items, renorm.template_items],
+        "oracle": native_renorm.oracle,
+        "explanation": "mixed: (proved, unbounded) the templates decode the flat matrix index to (row, column) and apply each factor to the species' own slot; (proved for bounded sizes, symbolic contents) _prepare_renorm_content executed symbolically for every (elements, species) size up to 2x2 (quick) / 3x2, 2x3 (thorough) with symbolic counts, mass numbers, electron flags: every emitted matrix entry / factor denotes the mass-weighted spec, and from the spec z3 proves the restoration identity and the identity-when-matching lemma for those sizes; (bounded) exact evaluation of the rendered InitRenorm/RenormAbundance/GetElementAbund of both back ends on six small networks with an exact linear solve. The unbounded loop proof needs a sequence-sum model pyvc lacks, hence level other.",
+        "trusted_base": ["the linear solve (SUNDIALS dense / uBLAS LU) is external and assumed exact", "requires: positive mass numbers, H > 0; element closure for the identity lemma"],
+        "contract_files": ["renorm.py"],
     },
     "C19": {
         "level": "proof",
